@@ -56,12 +56,12 @@ def _worker(args):
             if job.get('enumerate'):
                 try:
                     outs = all_outputs(job['f'], job['p'], limit=job.get('limit', 3000))
-                    recs = [{'id': job['rec_id'] * 100000 + k, 'f': job['f'], 'p': job['p'], 'outcome': 'ok', 'st': st,
+                    recs = [{'id': job['enum_base'] + k, 'f': job['f'], 'p': job['p'], 'outcome': 'ok', 'st': st,
                              'drift': job.get('drift', False), 'seed': -1} for k, st in enumerate(outs)]
                 except rngtools.NotEnumerable:
                     recs = []
                 except Exception as e:
-                    recs = [{'id': job['rec_id'] * 100000, 'f': job['f'], 'p': job['p'], 'outcome': proj.outcome_class(e), 'st': {},
+                    recs = [{'id': job['enum_base'], 'f': job['f'], 'p': job['p'], 'outcome': proj.outcome_class(e), 'st': {},
                              'drift': False, 'seed': -1}]
             else:
                 recs = [record(job['rec_id'], job['f'], job['p'], seed=job.get('seed'), drift=job.get('drift', False))]
